@@ -138,4 +138,14 @@ class Pool:
             w["proc"].join(0.5)
             if w["proc"].is_alive():
                 w["proc"].kill()
+        # a watchdog hit may be the machine's load, not the code: every item reported as hung is run once more, alone,
+        # with a much longer limit; only an item that hangs again stays a hang
+        hung = [i for i, r in enumerate(results) if isinstance(r, dict) and r.get("hang")]
+        if hung and not getattr(self, "_confirming", False):
+            again = Pool(1, modname=self.modname)
+            again._confirming = True
+            for i in hung[:40]:
+                r2 = again.map(fname, [args[i]], timeout=max(120.0, 6 * timeout), batch=1)[0]
+                if not (isinstance(r2, dict) and r2.get("hang")):
+                    results[i] = r2
         return results
